@@ -206,6 +206,25 @@ func runOne(x *X, fn func(*X), deadline time.Duration) bool {
 		x.Begin()
 		fn(x)
 	}()
+	if x.S.Hold != "" && !x.Bare {
+		// promptness probe: cancel once the held body runs; the directive must return while it is held
+		go func() {
+			select {
+			case <-x.heldc:
+			case <-finished:
+				close(x.holdc)
+				return
+			}
+			time.Sleep(200 * time.Microsecond)
+			x.Cancel()
+			select {
+			case <-finished:
+			case <-time.After(1500 * time.Millisecond):
+				x.add(Ev{Ev: "notprompt", Idx: -1, Note: "held " + x.S.Hold})
+			}
+			close(x.holdc)
+		}()
+	}
 	select {
 	case <-finished:
 		return false
